@@ -70,6 +70,15 @@ class DataPathMultiType(enum.Enum):
     ANY = 5  #
 
 
+# the `DATUM_TYPE` / `MULTI_TYPE` specifiers that can follow "path" in a spec key:
+DATUM_TYPE_MULTI_TYPE_SPECIFIERS = frozenset(
+    member.name.lower()
+    for enum_cls in (DataPathDatumType, DataPathMultiType)
+    for member in enum_cls
+    if member.value
+)
+
+
 class DataPath:
     """Class to represent a path within a nested data structure.
 
@@ -190,6 +199,9 @@ class DataPath:
         for i in spec_key_split[1:]:
             i = DATUM_TYPE_MULTI_TYPE_LOOKUP.get(i, i)
             try:
+                if i not in DATUM_TYPE_MULTI_TYPE_SPECIFIERS:
+                    # e.g. "path.simplify": an attribute, but not a specifier
+                    raise AttributeError(i)
                 obj = getattr(obj, i)()
             except AttributeError:
                 raise MalformedDataPathSpec(
